@@ -320,7 +320,20 @@ end Mhd.Susp
 namespace Mhd.Susp
 
 /-- the reader never suspends and returns data at the same time, or the write path is guarded -/
-def RdOK (g : Guards) (k : Conn) : Prop := g.writeReader = true ∨ k.plan.rd = false ∨ k.chunkedReply = true
+def RdOK (g : Guards) (k : Conn) : Prop :=
+  g.writeReader = true ∨ ∀ p ∈ k.script, p.rd = false ∨ p.rkind = .cbUnknown
+
+theorem plan_mem_script (k : Conn) : k.plan ∈ k.script := by
+  unfold Conn.script; exact List.mem_append_right _ List.mem_cons_self
+
+/-- … in particular for the request being processed -/
+theorem RdOK.cur {g : Guards} {k : Conn} (h : RdOK g k) :
+    g.writeReader = true ∨ k.plan.rd = false ∨ k.chunkedReply = true := by
+  rcases h with h | h
+  · exact Or.inl h
+  · rcases h k.plan (plan_mem_script k) with h | h
+    · exact Or.inr (Or.inl h)
+    · exact Or.inr (Or.inr (by simp [Conn.chunkedReply, h]))
 
 theorem optAct_none_susp (g : Guards) (k : Conn) : (optAct g k none).1 = k := rfl
 
@@ -441,7 +454,7 @@ namespace Mhd.Susp
 /-- what every turn preserves: the constant fields, and "a suspended connection with a pending
     resume request has told the daemon" -/
 def FrS (k k' : Conn) : Prop :=
-  k'.plan = k.plan ∧ k'.sent = k.sent ∧
+  k'.script = k.script ∧ k'.sent = k.sent ∧
   (k'.suspended = true → k'.resuming = true → (k.suspended = true ∧ k.resuming = true) ∨ k'.dres = true) ∧
   (k.dres = true → k'.dres = true)
 def Fr (k : Conn) (_ : List CEv) (k' : Conn) : Prop := FrS k k'
@@ -456,17 +469,17 @@ theorem FrS.trans {a b c : Conn} (h1 : FrS a b) (h2 : FrS b c) : FrS a c := by
     · exact Or.inr (h2.2.2.2 hd)
   · exact Or.inr hd
 /-- the end state may be replaced by one that agrees on the five fields -/
-theorem FrS.to {a b b' : Conn} (h : FrS a b) (h1 : b'.plan = b.plan) (h2 : b'.sent = b.sent)
+theorem FrS.to {a b b' : Conn} (h : FrS a b) (h1 : b'.script = b.script) (h2 : b'.sent = b.sent)
     (h3 : b'.suspended = b.suspended) (h4 : b'.resuming = b.resuming) (h5 : b'.dres = b.dres) : FrS a b' := by
   refine ⟨h1.trans h.1, h2.trans h.2.1, ?_, ?_⟩
   · rw [h3, h4, h5]; exact h.2.2.1
   · rw [h5]; exact h.2.2.2
-theorem FrS.from {a a' b : Conn} (h : FrS a' b) (h1 : a'.plan = a.plan) (h2 : a'.sent = a.sent)
+theorem FrS.from {a a' b : Conn} (h : FrS a' b) (h1 : a'.script = a.script) (h2 : a'.sent = a.sent)
     (h3 : a'.suspended = a.suspended) (h4 : a'.resuming = a.resuming) (h5 : a'.dres = a.dres) : FrS a b := by
   refine ⟨h.1.trans h1, h.2.1.trans h2, ?_, ?_⟩
   · rw [← h3, ← h4]; exact h.2.2.1
   · rw [← h5]; exact h.2.2.2
-theorem FrS.of_eq {a b : Conn} (h1 : b.plan = a.plan) (h2 : b.sent = a.sent)
+theorem FrS.of_eq {a b : Conn} (h1 : b.script = a.script) (h2 : b.sent = a.sent)
     (h3 : b.suspended = a.suspended) (h4 : b.resuming = a.resuming) (h5 : b.dres = a.dres) : FrS a b :=
   (FrS.refl a).to h1 h2 h3 h4 h5
 
@@ -476,10 +489,10 @@ theorem Fr_rel : TurnRel Fr where
 
 theorem FrS_doSuspend (g : Guards) (hg : g.shortcut = true) (k : Conn) : FrS k (k.doSuspend g).1 := by
   unfold Conn.doSuspend FrS
-  by_cases h : k.resuming = true <;> simp [h, hg]
+  by_cases h : k.resuming = true <;> simp [h, hg, Conn.script]
 
 theorem FrS_doResumeReq (k : Conn) : FrS k k.doResumeReq := by
-  unfold Conn.doResumeReq FrS; simp
+  unfold Conn.doResumeReq FrS; simp [Conn.script]
 
 theorem FrS_suspendAct (g : Guards) (hg : g.shortcut = true) (a : ActK) (k : Conn) : FrS k (suspendAct g k a).1 := by
   simp only [suspendAct]
@@ -592,6 +605,18 @@ namespace Mhd.Susp
 
 /-! ### idleStep -/
 
+theorem FrS_nextRequest (k : Conn) : FrS k (nextRequest k).1 := by
+  unfold nextRequest
+  split
+  · exact FrS.of_eq rfl rfl rfl rfl rfl
+  · next p ps h =>
+    refine FrS.of_eq ?_ rfl rfl rfl rfl
+    simp [Conn.script, h]
+
+theorem QR_nextRequest (k : Conn) (hk : k.suspended = false) : QR k (nextRequest k).2.1 (nextRequest k).1 := by
+  unfold nextRequest
+  split <;> simp [QR, quietFrom, hk]
+
 theorem FrS_idleStep (g : Guards) (hg : g.shortcut = true) (k : Conn) : FrS k (idleStep g k).1 := by
   unfold idleStep
   split
@@ -625,7 +650,7 @@ theorem FrS_idleStep (g : Guards) (hg : g.shortcut = true) (k : Conn) : FrS k (i
   · exact FrS.refl k
   · exact FrS.of_eq rfl rfl rfl rfl rfl
   · exact FrS.refl k
-  · exact FrS.of_eq rfl rfl rfl rfl rfl
+  · exact FrS_nextRequest k
   · exact FrS.refl k
 
 theorem QR_idleStep (g : Guards) (hg : g.bodyRetry = true) (k : Conn) (hk : k.suspended = false) :
@@ -663,7 +688,7 @@ theorem QR_idleStep (g : Guards) (hg : g.bodyRetry = true) (k : Conn) (hk : k.su
   · exact QR_nil rfl
   · exact QR_nil rfl
   · exact QR_nil rfl
-  · simp [QR, quietFrom, hk]
+  · exact QR_nextRequest k hk
   · exact QR_nil rfl
 
 theorem updateEli_susp (g : Guards) (k : Conn) : (updateEli g k).suspended = k.suspended := by
@@ -738,7 +763,7 @@ def QRP (g : Guards) (k : Conn) (evs : List CEv) (k' : Conn) : Prop :=
   RdOK g k → QR k evs k' ∧ FrS k k'
 
 theorem RdOK_of_FrS {g : Guards} {k k' : Conn} (h : FrS k k') (hk : RdOK g k) : RdOK g k' := by
-  unfold RdOK Conn.chunkedReply at *
+  unfold RdOK at *
   rw [h.1]; exact hk
 
 theorem QRP_rel (g : Guards) : TurnRel (QRP g) where
@@ -754,7 +779,7 @@ theorem QR_callHandlers (g : Guards) (hg : g.Sound) (ep rr wr : Bool) (k : Conn)
   obtain ⟨h1, _, _, h4, h5, _, h7, h8⟩ := hg
   have := sat_callHandlers (QRP_rel g) (g := g) (ep := ep)
     (fun k _ => ⟨QR_handleRead g h4 k, Fr_handleRead g k⟩)
-    (fun k hk => ⟨QR_handleWrite g h5 k hk, Fr_handleWrite g h8 k⟩)
+    (fun k hk => ⟨QR_handleWrite g h5 k hk.cur, Fr_handleWrite g h8 k⟩)
     (fun k _ => ⟨QR_handleIdle g h1 h7 ep k, Fr_handleIdle g h8 ep k⟩) rr wr k hk
   exact this.1
 
